@@ -19,7 +19,7 @@ from django_evolution.consts import UpgradeMethod
 from django_evolution.errors import EvolutionExecutionError
 from django_evolution.evolve.base import BaseEvolutionTask
 from django_evolution.models import Evolution
-from django_evolution.mutations import AddField
+from django_evolution.mutations import AddField, ChangeField
 from django_evolution.mutators import AppMutator
 from django_evolution.signals import (applied_evolution,
                                       applying_evolution,
@@ -1475,14 +1475,19 @@ class EvolveAppTask(BaseEvolutionTask):
                 # (a field type, constraint or index class, Q, F, ...).
                 imports.add('from django.db import models')
 
-            if isinstance(mutation, AddField):
-                field_module = mutation.field_type.__module__
+            if isinstance(mutation, (AddField, ChangeField)):
+                field_type = mutation.field_type
+            else:
+                field_type = None
+
+            if field_type is not None:
+                field_module = field_type.__module__
 
                 if field_module.startswith('django.db.models'):
                     imports.add('from django.db import models')
                 else:
                     import_str = ('from %s import %s' %
-                                  (field_module, mutation.field_type.__name__))
+                                  (field_module, field_type.__name__))
 
                     if field_module.startswith(app_prefix):
                         project_imports.add(import_str)
